@@ -204,6 +204,49 @@ func VerifC11_Agree() {
 		}
 		vx.Assert("get-on-gen-agrees", sameMulti(gvals, got, ordered))
 	}
+	// Has / First / Locate / Walk on the gen representation
+	var ghas bool
+	var gfirst any
+	var glocs []Expr
+	var gwalk []any
+	pan = vx.Catch(func() {
+		ghas = x.Has(gd)
+		gfirst = x.First(gd)
+		glocs = x.Locate(gd, 0)
+		x.Walk(gd, func(path Expr, nodes []any) {
+			if len(nodes) > 0 {
+				gwalk = append(gwalk, simplifyAny(nodes[len(nodes)-1]))
+			}
+		})
+	})
+	vx.Assert("no-panic:evaluators(gen)", !pan)
+	if !pan {
+		vx.Assert("has-on-gen-agrees", ghas == (len(got) > 0))
+		if len(got) > 0 {
+			if ordered {
+				vx.Assert("first-on-gen-agrees", vref.TreeEqual(simplifyAny(gfirst), got[0]))
+			} else {
+				vx.Assert("first-on-gen-agrees", member(simplifyAny(gfirst), got))
+			}
+		}
+		ok := len(glocs) == len(got)
+		if !ok {
+			vx.Key("slice", sliceCase(rf))
+		}
+		vx.Assert("locate-on-gen-agrees-with-get", ok)
+		ok = sameMulti(gwalk, got, false)
+		if !ok {
+			vx.Key("slice", sliceCase(rf))
+		}
+		vx.Assert("walk-on-gen-agrees-with-get", ok)
+	}
 	vx.Cover("nonempty", len(got) > 0)
 	vx.Cover("empty", len(got) == 0)
+}
+
+func simplifyAny(v any) any {
+	if n, ok := v.(gen.Node); ok && n != nil {
+		return n.Simplify()
+	}
+	return v
 }
